@@ -3,7 +3,7 @@
     Models: Model/Structure.v, Model/Cycles.v (SciPy's connected_components is an oracle argument with
     contract [components_contract]). *)
 From SKN Require Import Base.Util Model.Bfs Model.Structure Model.Cycles
-  Proofs.BfsProofs Proofs.StructureProofs Proofs.CyclesProofs.
+  Proofs.BfsProofs Proofs.StructureProofs Proofs.CyclesProofs Gen.CyclesCode.
 
 (** ** is_bipartite *)
 
@@ -150,6 +150,10 @@ Print Assumptions get_cycles_empty_iff_acyclic.
 
 (** ** break_cycles *)
 
+(** The model's parameter [vo] ("the undirected branch also starts in the components without root") is
+    [bc_und_visits_other_components], re-extracted from cycles.py on every run (Gen/CyclesCode.v):
+    [false] for the code with defect D22, [true] once the proposed repair is in. *)
+
 (** BOUNDED theorem (exhaustive evaluation by vm_compute, not a general proof): for every digraph on
     at most 3 nodes (self-loops allowed) or on 4 nodes without self-loops, every non-empty root list
     with an outgoing edge, directed=True (or inferred on a non-symmetric pattern), with the canonical
@@ -158,8 +162,8 @@ Print Assumptions get_cycles_empty_iff_acyclic.
 Theorem break_cycles_ok_upto_4 (g : graph) (root : list nat) (directed : option bool) :
   In g small_digraphs -> In root (nonempty_sublists (nodes g)) -> 0 < out_degree g root ->
   directed = Some true \/ (directed = None /\ is_symmetric g = false) ->
-  exists h, bc_run directed true g root = Ok h /\ bc_post g root true h = true.
-Proof. exact (break_cycles_ok_upto_4_lemma g root directed). Qed.
+  exists h, bc_run bc_und_visits_other_components directed true g root = Ok h /\ bc_post g root true h = true.
+Proof. exact (break_cycles_ok_upto_4_lemma bc_und_visits_other_components g root directed). Qed.
 Print Assumptions break_cycles_ok_upto_4.
 
 (** The same bounded statement with [bc_post] unfolded into propositions (proved, for all graphs:
@@ -168,36 +172,58 @@ Print Assumptions break_cycles_ok_upto_4.
 Theorem break_cycles_ok_upto_4_prop (g : graph) (root : list nat) (directed : option bool) :
   In g small_digraphs -> In root (nonempty_sublists (nodes g)) -> 0 < out_degree g root ->
   directed = Some true \/ (directed = None /\ is_symmetric g = false) ->
-  exists h, bc_run directed true g root = Ok h /\
+  exists h, bc_run bc_und_visits_other_components directed true g root = Ok h /\
     length h = length g /\
     (forall u v, edge h u v -> edge g u v) /\
     (~ exists c, dcycle h c) /\
     (forall r v, In r root -> r < length g -> reach (edge g) r v -> exists r', In r' root /\ reach (edge h) r' v).
-Proof. exact (break_cycles_ok_upto_4_prop_lemma g root directed). Qed.
+Proof. exact (break_cycles_ok_upto_4_prop_lemma bc_und_visits_other_components g root directed). Qed.
 Print Assumptions break_cycles_ok_upto_4_prop.
 
-(** BOUNDED, undirected branch (all symmetric patterns on at most 4 nodes, self-loops allowed), with the
-    defective site excluded by the explicit hypothesis [cycles_covered]: every node on a cycle is
-    reachable from the roots. *)
+(** BOUNDED, undirected branch (all symmetric patterns on at most 4 nodes, self-loops allowed), in
+    propositional form ([bc_post_undirected_sound]): the result has the same nodes, is a symmetric
+    subgraph without self-loop or simple cycle on >= 3 nodes, and keeps every node reachable from a root
+    reachable. While the code has defect D22 ([bc_und_visits_other_components = false]) the defective
+    site is excluded by the explicit hypothesis [cycles_covered]: every node on a cycle is reachable
+    from the roots. With the repair the hypothesis disappears. *)
 Theorem break_cycles_undirected_ok_upto_4 (g : graph) (root : list nat) (directed : option bool) :
   In g small_undirected -> In root (nonempty_sublists (nodes g)) -> 0 < out_degree g root ->
-  cycles_covered g root = true ->
+  (bc_und_visits_other_components = false -> cycles_covered g root = true) ->
   directed = None \/ directed = Some false ->
-  exists h, bc_run directed false g root = Ok h /\ bc_post g root false h = true.
-Proof. exact (break_cycles_undirected_ok_upto_4_lemma g root directed). Qed.
+  exists h, bc_run bc_und_visits_other_components directed false g root = Ok h /\
+    length h = length g /\
+    (forall u v, edge h u v -> edge g u v) /\
+    (forall u v, edge h u v -> edge h v u) /\
+    (~ exists c, ucycle h c) /\
+    (forall r v, In r root -> r < length g -> reach (edge g) r v -> exists r', In r' root /\ reach (edge h) r' v).
+Proof. exact (break_cycles_undirected_ok_upto_4_prop_lemma bc_und_visits_other_components g root directed). Qed.
 Print Assumptions break_cycles_undirected_ok_upto_4.
 
-(** The hypothesis is necessary (DESIGN.md D22): triangle {0,2,3} plus root 1 with a self-loop is
-    returned with the triangle intact, for any admissible oracle answer. *)
+(** The hypothesis is necessary for the code as written (DESIGN.md D22): triangle {0,2,3} plus root 1
+    with a self-loop is returned with the triangle intact, for any admissible oracle answer. *)
 Theorem break_cycles_undirected_refuted :
   exists g root comp h,
     wf_graph g /\ is_symmetric g = true /\ In root (nonempty_sublists (nodes g)) /\ 0 < out_degree g root /\
     components_contract_b g false comp = true /\
-    (forall comp2, break_cycles g root None comp comp2 = Ok h) /\
+    (forall comp2, break_cycles false g root None comp comp2 = Ok h) /\
     ucycle h [0; 2; 3] /\ acyclic_b h false = false /\ bc_post g root false h = false /\
     cycles_covered g root = false.
 Proof. exact break_cycles_undirected_refuted_lemma. Qed.
 Print Assumptions break_cycles_undirected_refuted.
+
+(** The proposed repair (also start from one node of every component without root) needs no hypothesis
+    on the same bounded domain. *)
+Theorem break_cycles_undirected_repaired_ok_upto_4 (g : graph) (root : list nat) (directed : option bool) :
+  In g small_undirected -> In root (nonempty_sublists (nodes g)) -> 0 < out_degree g root ->
+  directed = None \/ directed = Some false ->
+  exists h, bc_run true directed false g root = Ok h /\
+    length h = length g /\
+    (forall u v, edge h u v -> edge g u v) /\
+    (forall u v, edge h u v -> edge h v u) /\
+    (~ exists c, ucycle h c) /\
+    (forall r v, In r root -> r < length g -> reach (edge g) r v -> exists r', In r' root /\ reach (edge h) r' v).
+Proof. exact (break_cycles_undirected_repaired_lemma g root directed). Qed.
+Print Assumptions break_cycles_undirected_repaired_ok_upto_4.
 
 (** ** Non-vacuity *)
 Example c12_nonvacuous :
@@ -210,7 +236,7 @@ Example c12_nonvacuous :
   get_cycles [[1]; [2]; [0; 1]] (Some true) [0; 0; 0] = Ok [[0; 1; 2]; [1; 2]] /\
   is_acyclic g None [0; 0; 0; 0] = Ok false /\
   length small_digraphs = 4627 /\ length small_undirected = 1 + 2 + 8 + 64 + 1024 /\
-  bc_run (Some true) true [[1]; [2]; [0; 1]] [0] = Ok [[1]; [2]; []] /\
+  bc_run bc_und_visits_other_components (Some true) true [[1]; [2]; [0; 1]] [0] = Ok [[1]; [2]; []] /\
   get_largest_connected_component {| p_ncol := 3; p_rows := [[1]; [0]; []] |} false [0; 0; 1] =
     Ok ({| p_ncol := 2; p_rows := [[1]; [0]] |}, [0; 1]).
 Proof. cbv zeta. repeat split; vm_compute; reflexivity. Qed.
